@@ -103,6 +103,21 @@ func TestVerifC19(t *testing.T) {
 			add("oneline.min.js", one)
 			add("oneline_nl.min.js", append(append([]byte(nil), one...), '\n'))
 		}
+		if ti%2 == 1 || ti == 0 {
+			// a license whose lines straddle a refill point of a 64 KiB line scanner (byte 65536, 131072),
+			// with another buffer's worth of text behind it: -include_text must still return those lines
+			for _, at := range []int{65536 - 400, 131072 - 700} {
+				var sb bytes.Buffer
+				for k := 0; sb.Len() < at; k++ {
+					fmt.Fprintf(&sb, "v%05d := compute(%d, table[%d]) // step %d\n", k, k*7, k%13, k)
+				}
+				sb.Write(mit)
+				for k := 0; k < 4500; k++ {
+					fmt.Fprintf(&sb, "w%05d := finish(%d) // tail %d\n", k, k*3, k)
+				}
+				add(fmt.Sprintf("bundle_%d.js", at), sb.Bytes())
+			}
+		}
 		if ti%3 == 1 {
 			add("two.txt", append(append(append([]byte(nil), mit...), []byte("\n\nunrelated words between the two\n\n")...), bsd...))
 		}
